@@ -129,7 +129,10 @@ def spec(rng, ndim=None, dims=None, sizes=None, kinds=None, orders=None, dtype='
             # so that lookups run with the monotonicity cache populated
             "prime": rng.random() < 0.3,
             # memory layout is not observable through the library's API: 15 % of the N-d arrays hold Fortran-ordered values
-            "forder": n >= 2 and rng.random() < 0.15}
+            "forder": n >= 2 and rng.random() < 0.15,
+            # history: 12 % of the arrays reach their final labels / dimension names through in-place edits made after the axes have
+            # been searched, sorted and addressed by name (whatever was cached on the way must not survive the edit)
+            "history": rng.random() < 0.12}
 
 
 def build(sp, meta=True, as_list=False):
@@ -147,7 +150,34 @@ def build(sp, meta=True, as_list=False):
         v = np.array(sp["values"], copy=True)
         if sp.get("forder") and v.ndim >= 2:
             v = np.asfortranarray(v)
+        hist = bool(sp.get("history")) and not as_list and v.ndim >= 1 and all(len(l) for l in sp["labels"])
+        if hist:
+            # same values, the labels of every axis rotated by one and (N-d) the names of the first two dimensions exchanged
+            final_labels = [ax.values.copy() for ax in axes]
+            final_names = [ax.name for ax in axes]
+            for ax in axes:
+                ax._values = np.roll(ax.values, 1)
+            if v.ndim >= 2:
+                axes[0]._name, axes[1]._name = final_names[1], final_names[0]
         a = da.DimArray(v, axes=axes)
+        if hist:
+            try:
+                (a + a.ix[::-1]) if a.ndim else None
+                for ax in a.axes:
+                    ax.is_monotonic()
+                    a.take({ax.name: [ax.values[-1], ax.values[0]]})
+                    a.take_axis([ax.values[0]], axis=ax.name)
+                    a.sort_axis(axis=ax.name)
+                    a.reindex_axis(ax.values[::-1].copy(), axis=ax.name)
+                    if ax.values.dtype.kind in 'iuf' and ax.size > 1:
+                        a.interp_axis([float(ax.values.min())], axis=ax.name)
+                    a.reindex_axis(ax.values[::-1].copy(), axis=ax.name)      # (the last search made on this array's own label buffers)
+            except Exception:
+                pass        # judged by the property owning that operation
+            for ax, lab in zip(a.axes, final_labels):
+                ax[:] = lab                         # same dtype: written into the existing label buffer
+            if v.ndim >= 2:
+                a.axes[0].name, a.axes[1].name = final_names[0], final_names[1]
     except Exception as e:
         # a well-formed (values, Axis objects) specification that the constructor refuses is a C05 matter
         # (the host workload then reports a harness error, i.e. is inconclusive)
